@@ -103,3 +103,15 @@ PROPS["C04"] = dict(
     level_text="Sampled histories with an exact oracle per object (unique markers make the observed revision unambiguous).",
     level_note="Trusted base: pyref/pdfgen.py + pyref/pdf.py (anchored to qpdf fixtures for encryption, to the repository fixtures for reading).",
 )
+
+PROPS["C18"] = dict(
+    title="Page-tree navigation follows document order and inheritance",
+    level="exploration",
+    technique="generated page trees (independent writer) whose leaves carry a unique /VerifId and whose inheritable attributes carry unique markers; page_count/get_page under every preset are compared offline with the generator's document-order model (confirmed first by an independent flattener); inconsistent trees (wrong /Count, shared kids, cycles, wrong /Parent) are judged for order-consistency, panics and termination",
+    stages=[py("pyref.checks.c18", args={"phase": "gen"}), rust(id="OBS", args={"dir": "{out}/cases"}), py("pyref.checks.c18", args={"phase": "check"})],
+    rule="trees of depth <=5 (quick) / 8, fan-out <=5 / 12, up to 40 / 400 leaves, /Kids direct or indirect, MediaBox/CropBox/Rotate/Resources placed at random levels, objects written in shuffled order, classic or stream xref; every third tree is inconsistent. Non-trivial: >=3 leaves; distinct by tree id",
+    assumptions=["for inconsistent trees only order-consistency of what is returned, absence of panics and termination are judged (errors and shorter lists are accepted)"],
+    floors={"quick": {"evaluations": 1000, "distinct": 700, "counters": {"observations": 4000}}, "thorough": {"evaluations": 20000, "distinct": 15000}},
+    level_text="Sampled trees, exact oracle per page (unique ids and markers).",
+    level_note="Trusted base: pyref/pdfgen.py, pyref/pdf.py page flattener.",
+)
